@@ -103,9 +103,10 @@ def r09_1(ck):
         if key not in popped:
             continue
         var = popped[key][0]
+        # every place where the operation is carried out on this node,
+        # under whatever guard
         ops = [c for c in A.calls_in(f.node, STRUCTURAL[key])
-               if A.is_name(A.call_receiver(c), 'self') and
-               ('isnot', var, 'None') in cfg.guards(cfg.node(c))]
+               if A.is_name(A.call_receiver(c), 'self')]
         for c in ops:
             nodes.append((key, cfg.node(c)))
     n = 0
